@@ -113,6 +113,76 @@ def run_all(entries, jobs=16, tier='quick'):
         return list(ex.map(lambda e: run_entry(e, tier), entries))
 
 
+def _sweep_one(args):
+    prop, m = args
+    tmp = tempfile.mkdtemp(prefix='verif-sweep-')
+    try:
+        shutil.copytree(os.path.join(REPO, 'dataflows'), os.path.join(tmp, 'dataflows'),
+                        ignore=shutil.ignore_patterns('__pycache__'))
+        p = os.path.join(tmp, m['file'])
+        with open(p) as fh:
+            s = fh.read()
+        s2 = s[:m['start']] + m['repl'] + s[m['end']:]
+        try:
+            compile(s2, p, 'exec')
+        except SyntaxError:
+            return None
+        with open(p, 'w') as fh:
+            fh.write(s2)
+        env = dict(os.environ, VERIF_REPO=tmp, VERIF_EVIDENCE_DIR=os.path.join(tmp, 'ev'), VERIF_NO_AUDIT='1')
+        r = subprocess.run([sys.executable, '-B', '-m', 'sa.cli', prop], cwd=VERIF, env=env, capture_output=True, text=True)
+        return dict(file=m['file'], func=m['func'], line=m['line'], kind=m['kind'], orig=m['orig'][:100], rc=r.returncode)
+    finally:
+        shutil.rmtree(tmp, ignore_errors=True)
+
+
+def statement_sweep(prop, jobs=16):
+    """Systematic sensitivity measure (thorough tier): every single-statement edit (sa/mutants.py) of the files the property is
+    anchored in is applied to a scratch copy and the property's own check is run on it.  The result says how much of the anchored
+    code the check is sensitive to at all; many unnoticed edits are behaviour-preserving or break the code outright (the tests
+    catch those), so the figure is a measure of reach, not a verdict.  Never changes the exit code."""
+    from rules.generic import anchor_files
+    from .mutants import mutants_of
+    ms = []
+    for rel in sorted(set(anchor_files(prop))):
+        full = os.path.join(REPO, rel)
+        paths = []
+        if rel.endswith('/') and os.path.isdir(full):
+            paths = [os.path.join(rel, f) for f in sorted(os.listdir(full)) if f.endswith('.py')]
+        elif os.path.isfile(full):
+            paths = [rel]
+        for q in paths:
+            with open(os.path.join(REPO, q)) as fh:
+                try:
+                    ms.extend(mutants_of(q, fh.read()))
+                except SyntaxError:
+                    pass
+    seen, uniq = set(), []
+    for m in ms:
+        k = (m['file'], m['start'], m['end'], m['repl'])
+        if k not in seen:
+            seen.add(k)
+            uniq.append(m)
+    with concurrent.futures.ThreadPoolExecutor(max_workers=jobs) as ex:
+        res = [r for r in ex.map(_sweep_one, [(prop, m) for m in uniq]) if r is not None]
+    noticed = [r for r in res if r['rc'] == 1]
+    errors = [r for r in res if r['rc'] == 2]
+    quiet = [r for r in res if r['rc'] == 0]
+    by_file = {}
+    for r in res:
+        d = by_file.setdefault(r['file'], dict(edits=0, reported=0, analysis_error=0, unnoticed=0))
+        d['edits'] += 1
+        d['reported' if r['rc'] == 1 else 'analysis_error' if r['rc'] == 2 else 'unnoticed'] += 1
+    print('AUDIT: property=%s statement sweep over %d anchored file(s): %d single-statement edits, %d reported as violation, %d as '
+          'analysis error, %d unnoticed' % (prop, len(by_file), len(res), len(noticed), len(errors), len(quiet)))
+    return dict(edits=len(res), reported=len(noticed), analysis_error=len(errors), unnoticed=len(quiet), by_file=by_file,
+                unnoticed_sample=[dict(where='%s:%d' % (r['file'], r['line']), function=r['func'], kind=r['kind'], text=r['orig'])
+                                  for r in quiet[:40]],
+                note='edits: statement -> pass, branch test negated, break <-> continue, yield dropped, comprehension filter negated; '
+                     'an unnoticed edit is not a missed violation by itself (many break the code outright or change nothing the property '
+                     'speaks about)')
+
+
 def audit_property(prop, jobs=16):
     entries = [e for e in load_corpus() + seeded_entries() + refactor_entries() if e['property'] == prop]
     res = run_all(entries, jobs)
@@ -124,7 +194,11 @@ def audit_property(prop, jobs=16):
     print('AUDIT: property=%s mutants caught %d/%d, refactors silent %d/%d, skipped %d' % (
         prop, sum(r['status'] == 'ok' for r in mut), len(mut), sum(r['status'] == 'ok' for r in ref), len(ref),
         sum(r['status'] == 'skipped' for r in res)))
-    return dict(mutants_applied=len(mut), mutants_caught=sum(r['status'] == 'ok' for r in mut),
+    try:
+        sweep = statement_sweep(prop, jobs)
+    except Exception as e:
+        sweep = dict(error='%s: %s' % (type(e).__name__, e))
+    return dict(statement_sweep=sweep, mutants_applied=len(mut), mutants_caught=sum(r['status'] == 'ok' for r in mut),
                 refactors_applied=len(ref), refactors_silent=sum(r['status'] == 'ok' for r in ref),
                 skipped=[r['id'] for r in res if r['status'] == 'skipped'],
                 misses=[dict(id=r['id'], rc=r.get('rc'), rules=r.get('rules')) for r in res if r['status'] == 'MISS'])
